@@ -284,4 +284,44 @@ theorem run_held_w {cfg : Cfg} (hk : closes Gen.fileFlushBody = false) (es : Lis
     have := ih (session_held (cfg := cfg) hk h e he) (fun e' he' => hs e' (List.mem_cons_of_mem _ he'))
     simpa [runO, run, h1] using this
 
+/-- the mode of the handle `openFile` hands out is the one `File.__init__` leaves in `self.mode` -/
+theorem openFile_mode (w : World) (hn : w.handle = none) (m : Mode) (hd : Handle)
+    (ho : (openFile w m).1.handle = some hd) :
+    let ps : PathState := if (settle w).disk.isSome then .file else .missing
+    (∃ fl, openDecision ps m = .create fl hd.mode) ∨ (∃ fl, openDecision ps m = .openExisting fl hd.mode) := by
+  have hsn : (settle w).handle = none := by rw [settle_handle, hn]
+  rcases Option.eq_none_or_eq_some (settle w).disk with hdn | ⟨d, hdd⟩
+  · simp only [hdn, Option.isSome_none, Bool.false_eq_true, if_false]
+    cases m with
+    | readOnly =>
+      rw [openFile_missing_ro _ hn hdn, hsn] at ho
+      cases ho
+    | readWrite =>
+      rw [openFile_missing_rw _ hn hdn] at ho
+      simp only [createW, Option.some.injEq] at ho
+      subst ho
+      exact Or.inl ⟨.trunc, rfl⟩
+    | overwrite =>
+      rw [openFile_create _ hn] at ho
+      simp only [createW, Option.some.injEq] at ho
+      subst ho
+      exact Or.inl ⟨.trunc, rfl⟩
+  · simp only [hdd, Option.isSome_some, if_true]
+    cases m with
+    | overwrite =>
+      rw [openFile_create _ hn] at ho
+      simp only [createW, Option.some.injEq] at ho
+      subst ho
+      exact Or.inl ⟨.trunc, rfl⟩
+    | readOnly =>
+      rw [openFile_existing .readOnly (by simp) hn hdd] at ho
+      simp only [Option.some.injEq] at ho
+      subst ho
+      exact Or.inr ⟨.rdonly, rfl⟩
+    | readWrite =>
+      rw [openFile_existing .readWrite (by simp) hn hdd] at ho
+      simp only [Option.some.injEq] at ho
+      subst ho
+      exact Or.inr ⟨.rdwr, rfl⟩
+
 end Nix.Flush.Lemmas
